@@ -83,16 +83,30 @@ static std::vector<Point64> sample19(Rng& r, const Path64& pat, const Path64& pa
   return pts;
 }
 
+// sampler "deep" (family deep): integer points of the central column x in [8, 22] of the swept band, half of them in the
+// middle fifth of the result's y-range (where the hatch strokes pile up deepest), the rest over the whole y-range
+static std::vector<Point64> sample_deep(Rng& r, const Path64& pat, const Path64& path, bool sum, int ps, int npts) {
+  std::vector<Point64> pts; std::set<std::pair<int64_t, int64_t>> seen;
+  auto add = [&](int64_t x, int64_t y) { if (seen.insert({x, y}).second) pts.emplace_back(x, y); };
+  int64_t ly = INT64_MAX, hy = INT64_MIN;
+  for (auto& a : path) for (auto& b : pat) { Point64 c = sum ? a + b : a - b; ly = std::min(ly, c.y); hy = std::max(hy, c.y); }
+  const int64_t mid = (ly + hy) / 2, tenth = std::max<int64_t>(1, (hy - ly) / 10);
+  int guard = 0;
+  while ((int)pts.size() < npts / 2 && guard++ < 100000) add(r.range(ps * 8, ps * 22), r.range(ps * (mid - tenth), ps * (mid + tenth)));
+  while ((int)pts.size() < npts && guard++ < 200000) add(r.range(ps * 8, ps * 22), r.range(ps * (ly - 4), ps * (hy + 4)));
+  return pts;
+}
+
 static bool d_matches(double d, int64_t v, double scale) { return d == (double)v * (1 / scale) || d == (double)v / scale; }
 
 struct Counts { long long calls = 0, cases = 0; };
 
 static void run_case(std::ostream& os, uint64_t s0, long long id, const std::string& fam, const Path64& pat, const Path64& path,
-                     int op, int closed, const Emb19& e, int npts, bool withD, Counts& cn) {
+                     int op, int closed, const Emb19& e, int npts, bool withD, Counts& cn, bool deep = false) {
   const bool sum = op == 1;
   uint64_t h = hash_paths({pat, path}) ^ s0 ^ (uint64_t)(op * 2 + closed) * 0x9E3779B97F4A7C15ULL ^ (uint64_t)e.id * 0xC2B2AE3D27D4EB4FULL;
   Rng pr(h);     // per-case stream: a replay of this single case (same --seed) picks the same points
-  std::vector<Point64> pts = sample19(pr, pat, path, sum, closed != 0, e.ps, npts);
+  std::vector<Point64> pts = deep && !pat.empty() && !path.empty() ? sample_deep(pr, pat, path, sum, e.ps, npts) : sample19(pr, pat, path, sum, closed != 0, e.ps, npts);
   Path64 P = emb19(pat, e.m, e.tpx, e.tpy), Q = emb19(path, e.m, e.tqx, e.tqy);
   i128 inmax = 0; for (auto* pp : {&P, &Q}) for (auto& q : *pp) { inmax = std::max(inmax, (i128)std::llabs(q.x)); inmax = std::max(inmax, (i128)std::llabs(q.y)); }
   Paths64 out = sum ? MinkowskiSum(P, Q, closed != 0) : MinkowskiDiff(P, Q, closed != 0); ++cn.calls;
@@ -128,13 +142,14 @@ static void run_case(std::ostream& os, uint64_t s0, long long id, const std::str
   os << ev.str() << "\n"; ++cn.cases;
 }
 
-// vh c19 --fam rand|in|empty --seed S --n N --emb 0,1 --ops 0,1 --closed 0,1 --npts 160 --ps 0 --d 1 --in file --skip k --stride s --out file
+// vh c19 --fam rand|in|empty|deep [--E 255,256] [--sampler std|deep] --seed S --n N --emb 0,1 --ops 0,1 --closed 0,1 --npts 160 --ps 0 --d 1 --in file --skip k --stride s --out file
 static int cmd_c19(const Args& a) {
   Rng r((uint64_t)argi(a, "seed", 1)); const uint64_t s0 = r.s;
   std::string fam = args(a, "fam", "rand");
   long long n = argi(a, "n", 10); int npts = (int)argi(a, "npts", 160); bool withD = argi(a, "d", 1) != 0;
   std::vector<long long> embs = argl(a, "emb", "0"), ops = argl(a, "ops", "1,0"), cls = argl(a, "closed", "0,1");
   const int psov = (int)argi(a, "ps", 0);
+  const bool deep = args(a, "sampler", fam == "deep" ? "deep" : "std") == "deep";
   const bool rot = argi(a, "rotemb", 0) != 0;     // rotemb: one embedding of the list per (case, op, closed), rotating
   std::ofstream os(args(a, "out", "/dev/stdout"));
   Counts cn; long long id = 0, base = 0;
@@ -145,7 +160,7 @@ static int cmd_c19(const Args& a) {
       for (size_t ei = 0; ei < embs.size(); ++ei) {
         if (rot && ei != 0 && (long long)ei != 1 + (base + k) % (long long)(embs.size() - 1)) continue;
         Emb19 e = c19_embs()[embs[ei]]; if (psov > 0) e.ps = psov;
-        run_case(os, s0, ++id, fam, pat, path, (int)op, (int)c, e, npts, withD, cn);
+        run_case(os, s0, ++id, fam, pat, path, (int)op, (int)c, e, npts, withD, cn, deep);
       }
     }
   };
@@ -154,6 +169,16 @@ static int cmd_c19(const Args& a) {
     for (long long i = 0; i < n; ++i) {
       int kind = (int)(i % 3), nv = (int)(kind == 0 ? r.range(3, 5) : r.range(0, 7) == 0 ? 3 : r.range(4, 5)), np = (int)r.range(2, 5);
       Path64 pat = gen_pattern(r, Rp[r.next() % 3], nv, kind), path = rand_pts(r, Rq[r.next() % 3], np);
+      emit(pat, path);
+    }
+  } else if (fam == "deep") {
+    // deep overlap: a tall rectangle pattern (one long edge, wider than the hatch) swept along a tightly folded hatch path of E short
+    // strokes (x alternating 0 / 30, y = 6 i): in the central column every stroke's parallelogram of the long edge overlaps all the
+    // others over a whole band (E deep), and the ramps below / above it pass through every depth 1..E.   --E 255,256
+    for (long long E : argl(a, "E", "255,256")) {
+      const int64_t H = 6 * E + 300;
+      const int64_t Z = 0, W = -40; Path64 pat = {{Z, Z}, {Z, H}, {W, H}, {W, Z}}, path;
+      for (long long i = 0; i <= E; ++i) path.emplace_back((int64_t)(i % 2 ? 30 : 0), (int64_t)(6 * i));
       emit(pat, path);
     }
   } else if (fam == "empty") {          // empty pattern and / or empty path (plus one non-empty control pair)
